@@ -28,11 +28,14 @@ import (
 	"time"
 
 	v3orcapb "github.com/cncf/xds/go/xds/data/orca/v3"
+	"google.golang.org/grpc/balancer"
 	"google.golang.org/grpc/balancer/weightedroundrobin/internal"
+	"google.golang.org/grpc/connectivity"
 	estats "google.golang.org/grpc/experimental/stats"
 	internalgrpclog "google.golang.org/grpc/internal/grpclog"
 	iserviceconfig "google.golang.org/grpc/internal/serviceconfig"
 	"google.golang.org/grpc/internal/verif/vk"
+	"google.golang.org/grpc/resolver"
 )
 
 const c36P = "C36"
@@ -589,6 +592,23 @@ func c36Close(got float64, want *big.Rat) bool {
 	return d.Cmp(tol) <= 0
 }
 
+// c36CC is the parent ClientConn of the bare wrrBalancer used by the timeline
+// leg: it hands out SubConns and keeps the (wrapped) state listener.
+type c36CC struct {
+	balancer.ClientConn // nil: only NewSubConn is used
+	listener            func(balancer.SubConnState)
+}
+
+type c36SC struct {
+	balancer.SubConn // nil: never called
+	id               int
+}
+
+func (c *c36CC) NewSubConn(_ []resolver.Address, o balancer.NewSubConnOptions) (balancer.SubConn, error) {
+	c.listener = o.StateListener
+	return &c36SC{}, nil
+}
+
 type c36MemoKey struct {
 	l   *c36Load
 	pen float64
@@ -640,7 +660,9 @@ type c36Event struct {
 // (valid reports and earlier queries, in order). It returns the admissible
 // answers: want (nil = 0) and, when the statement leaves the case open, alt.
 //
-//   - no report yet                       -> 0
+//   - the endpoint is not READY           -> not judged (not in the scheduler)
+//   - no report since it (re)became READY -> 0   (reports of an earlier
+//     connection do not count, gRFC A58)
 //   - latest report is >= E old           -> 0   (after the expiration period)
 //   - blackout B>0: less than B since the first report of the current run of
 //     reports                             -> 0   (during the blackout period)
@@ -655,9 +677,17 @@ func c36RefQuery(h []c36Event, t time.Duration, B, E time.Duration) (want, alt *
 	var last *c36Event
 	var strictStart, lenientStart time.Duration
 	sawExpiry := false // a query observed expiry since the last report
+	ready, reconnectedAfterReport := true, false
 	for i := range h {
 		ev := &h[i]
 		switch ev.kind {
+		case 'D': // the endpoint's SubConn left READY
+			ready = false
+		case 'C': // (re)became READY: only load reports from now on count
+			if last != nil {
+				reconnectedAfterReport = true
+			}
+			ready, last, sawExpiry = true, nil, false
 		case 'R':
 			if last == nil {
 				strictStart, lenientStart = ev.t, ev.t
@@ -677,7 +707,15 @@ func c36RefQuery(h []c36Event, t time.Duration, B, E time.Duration) (want, alt *
 			}
 		}
 	}
+	if !ready {
+		// an endpoint that is not READY is not part of the scheduler; the
+		// statement says nothing about its weight
+		return nil, nil, "open:not-ready"
+	}
 	if last == nil {
+		if reconnectedAfterReport {
+			return nil, nil, "zero:no-report-since-reconnect"
+		}
 		return nil, nil, "zero:no-report-yet"
 	}
 	if t-last.t >= E {
@@ -704,6 +742,7 @@ type c36Op struct {
 	load  *c36Load
 	adv   time.Duration
 	label string // outcome-class label of a valid report
+	conn  int    // 1: the endpoint's SubConn becomes READY (again); 2: it leaves READY
 }
 
 type c36TimeCfg struct {
@@ -720,6 +759,38 @@ func c36RunTimeline(cfg c36TimeCfg, ops []c36Op, seq []int, classes map[string]i
 	ew := &endpointWeight{logger: c36Log, metricsRecorder: c36Recorder{}, cfg: lcfg}
 	p := &picker{cfg: lcfg, metricsRecorder: c36Recorder{}, weightedPickers: []pickerWeightedEndpoint{{weightedEndpoint: ew}}}
 	c36Now = c36T0
+	// The endpoint's connectivity goes through the real wrrBalancer.NewSubConn
+	// (which wraps the state listener) and the real updateSubConnState.
+	cc := &c36CC{}
+	addr := resolver.Address{Addr: "10.0.0.1:1"}
+	bal := &wrrBalancer{ClientConn: cc, logger: c36Log, addressWeights: resolver.NewAddressMapV2[*endpointWeight](), scToWeight: map[balancer.SubConn]*endpointWeight{}}
+	bal.addressWeights.Set(addr, ew)
+	var curListener func(balancer.SubConnState)
+	isReady, reconnects := false, 0
+	connect := func() *c36Fail {
+		if isReady {
+			return nil
+		}
+		// every second reconnect uses a new SubConn (the old one is shut down),
+		// the others bring the same SubConn back to READY
+		if curListener == nil || reconnects%2 == 1 {
+			if curListener != nil {
+				curListener(balancer.SubConnState{ConnectivityState: connectivity.Shutdown})
+			}
+			if _, err := bal.NewSubConn([]resolver.Address{addr}, balancer.NewSubConnOptions{StateListener: func(balancer.SubConnState) {}}); err != nil {
+				return &c36Fail{kind: "newsubconn", desc: "wrrBalancer.NewSubConn failed: " + err.Error()}
+			}
+			curListener = cc.listener
+			curListener(balancer.SubConnState{ConnectivityState: connectivity.Connecting})
+		}
+		reconnects++
+		curListener(balancer.SubConnState{ConnectivityState: connectivity.Ready})
+		isReady = true
+		return nil
+	}
+	if f := connect(); f != nil { // every timeline starts with the endpoint READY
+		return 0, false, f
+	}
 	var now time.Duration
 	var hist []c36Event
 	for step, oi := range seq {
@@ -734,6 +805,19 @@ func c36RunTimeline(cfg c36TimeCfg, ops []c36Op, seq []int, classes map[string]i
 		case op.adv != 0:
 			now += op.adv
 			c36Now = c36T0.Add(now)
+		case op.conn == 1:
+			if !isReady {
+				if f := connect(); f != nil {
+					return queries, nontrivial, f
+				}
+				hist = append(hist, c36Event{t: now, kind: 'C'})
+			}
+		case op.conn == 2:
+			if isReady {
+				curListener(balancer.SubConnState{ConnectivityState: connectivity.Idle})
+				isReady = false
+				hist = append(hist, c36Event{t: now, kind: 'D'})
+			}
 		default: // query through the real picker.endpointWeights (cfg + TimeNow seam)
 			got := p.endpointWeights(false)[0]
 			want, alt, class := c36RefQuery(hist, now, cfg.B, cfg.E)
@@ -752,7 +836,7 @@ func c36RunTimeline(cfg c36TimeCfg, ops []c36Op, seq []int, classes map[string]i
 				}
 				return got == got && c36CloseMemoed(got, w) // got==got: not NaN
 			}
-			ok := okOne(want)
+			ok := class == "open:not-ready" || okOne(want)
 			if !ok && class == "open:silent-expiry-gap" {
 				ok = okOne(alt)
 			}
@@ -806,15 +890,16 @@ func TestVerif_C36_Weight(t *testing.T) {
 		{name: "reportA(qps=100,app=0.5,eps=0)", label: "A", load: &c36Load{Qps: 100, App: 0.5}},
 		{name: "reportB(qps=1,app=0,cpu=1,eps=10)", label: "B", load: &c36Load{Qps: 1, Cpu: 1, Eps: 10}},
 		{name: "reportEmpty(qps=0,app=0.5)", load: &c36Load{Qps: 0, App: 0.5}},
-		{name: "reportEmpty(qps=100,util=0)", load: &c36Load{Qps: 100}},
+		{name: "subConnLeavesReady", conn: 2},
+		{name: "subConnReadyAgain", conn: 1},
 		{name: "+1ns", adv: 1},
 		{name: "+10s-1ns", adv: B - 1},
 		{name: "+20s", adv: 20 * time.Second},
 		{name: "+30s-1ns", adv: E - 1},
 	}
-	cfgs := []c36TimeCfg{{0, E, 1}, {B, E, 1}, {B, B, 2}, {B, E, 0}}
+	cfgs := []c36TimeCfg{{0, E, 1}, {B, E, 1}, {0, B, 2}, {B, B, 0}}
 	depth := r.Pick(6, 8)
-	r.Rule(P, fmt.Sprintf("(1) formula: every load report of qps{0,1,100} x application_utilization{0,0.5,1} x cpu_utilization{0,0.5,1} x eps{0,10} x penalty{0,1,2} applied to a fresh endpoint (no blackout) and queried, exact rational oracle; (2) timeline: every sequence of exactly %d ops over {query, 2 valid reports, 2 empty reports, +1ns, +10s-1ns, +20s, +30s-1ns} for (blackout,expiration,penalty) in {(0,30s,1),(10s,30s,1),(10s,10s,2),(10s,30s,0)} on a virtual clock, every query compared with the history oracle; the steps compose to land exactly on, 1ns before and after both period boundaries; non-trivial = sequences with a query after a valid report whose answer the statement fixes", depth))
+	r.Rule(P, fmt.Sprintf("(1) formula: every load report of qps{0,1,100} x application_utilization{0,0.5,1} x cpu_utilization{0,0.5,1} x eps{0,10} x penalty{0,1,2} applied to a fresh endpoint (no blackout) and queried, exact rational oracle; (2) timeline: every sequence of exactly %d ops over {query, 2 valid reports, 1 empty report, SubConn leaves READY, SubConn READY again (real NewSubConn state-listener wrapper / updateSubConnState; alternately the same and a new SubConn), +1ns, +10s-1ns, +20s, +30s-1ns} for (blackout,expiration,penalty) in {0,10s}x{30s,10s} = {(0,30s,1),(10s,30s,1),(0,10s,2),(10s,10s,0)} on a virtual clock, the endpoint starting READY, every query while READY compared with the history oracle; the steps compose to land exactly on, 1ns before and after both period boundaries; non-trivial = sequences with a query after a valid report whose answer the statement fixes", depth))
 
 	if r.ReplayFile() != "" {
 		var rp struct {
@@ -908,11 +993,12 @@ func TestVerif_C36_Weight(t *testing.T) {
 	r.NontrivialN(P, nontriv)
 	r.Set(P, "timeline_sequences", sequences)
 	{
-		sseq := []int{1, 6, 0, 5, 0, 8, 0, 5, 0}
+		sseq := []int{1, 7, 0, 6, 0, 4, 5, 0, 2, 0}
 		var tr []string
 		c36RunTimeline(cfgs[1], ops, sseq, map[string]int64{}, &tr)
 		r.Sample(P, map[string]any{"cfg": "blackout=10s expiration=30s penalty=1", "ops": c36SeqString(ops, sseq), "queries": tr})
 	}
+	r.Assume(P, "every timeline starts with the endpoint READY; load reports received before the endpoint (re)became READY do not count (gRFC A58: weight state is reset when the endpoint's connection is re-established); queries while the endpoint is not READY are not judged (it is not in the scheduler; counted as queries_open:not-ready)")
 	r.Assume(P, "boundary instants follow gRFC A58: the weight is expired once now-lastReport >= expiration, and usable once now-firstReport >= blackout; reports with qps=0 or utilization=0 carry no usable data and are ignored; utilization = application_utilization, else cpu_utilization")
 	r.Assume(P, "float64 evaluation of the formula is compared with the exact rational value at relative tolerance 2^-50 (4 IEEE operations on positive operands)")
 	r.Assume(P, "histories in which two reports are separated by a gap >= expiration that no weight computation observed leave the blackout restart open; both answers are admitted there (counted as queries_open:silent-expiry-gap)")
